@@ -96,6 +96,7 @@ func runC05(c *Ctx) {
 	c.Rule("C05.R3", "WIRE", "stored shortcut = ToLower(piece of the rule's pattern); pre-check tests the lower-cased URL", 3)
 	c.Rule("C05.R4", "TBL", "regex heuristic: '?' bail-out; splitter class contains every RE2 metacharacter", 2)
 	c.Rule("C05.R5", "TBL", "regex heuristic: bracket-stripping expressions are greedy", 3)
+	c.Rule("C05.R7", "WIRE", "regex heuristic: a placeholder is prepended for the strippers that consume the preceding character", 1)
 
 	a := &anchors{c: c, rule: "C05.R1"}
 	nnr := a.fn("rules", "NewNetworkRule")
@@ -482,6 +483,107 @@ func runC05(c *Ctx) {
 		}
 		if nSplit == 0 {
 			c.Fail("C05.R4", shortFn(regexX)+": splitter class", regexX.Pos(), "UNDECIDED: no character-class splitter among the constant expressions it uses")
+		}
+		// ---------- R7: the strippers that need a character in front of the bracket get one ----------
+		{
+			var roots []*E
+			for _, r := range s.Rets {
+				roots = append(roots, u.AtomsOf(r.Cond)...)
+				roots = append(roots, r.Vals...)
+			}
+			for _, ef := range s.Effects {
+				roots = append(roots, ef.Call, ef.Val)
+				roots = append(roots, u.AtomsOf(ef.Cond)...)
+			}
+			isRepl := func(x *E) bool {
+				return x.Op == "call" && (x.Aux == "(*regexp.Regexp).ReplaceAllString" || x.Aux == "(*regexp.Regexp).ReplaceAllLiteralString") && len(x.Args) >= 3
+			}
+			seen := map[*E]bool{}
+			var repls []*E
+			for _, r := range roots {
+				if r == nil {
+					continue
+				}
+				for _, x := range u.Collect(r, isRepl) {
+					if !seen[x] {
+						seen[x] = true
+						repls = append(repls, x)
+					}
+				}
+			}
+			// the splitter class, for "the placeholder cannot become part of a shortcut"
+			var splitRunes []rune
+			for _, np := range pats {
+				if re, err := syntax.Parse(np.pat, syntax.Perl); err == nil && re.Op == syntax.OpCharClass {
+					splitRunes = re.Rune
+				}
+			}
+			inClass := func(rs []rune, ch rune) bool {
+				for i := 0; i+1 < len(rs); i += 2 {
+					if ch >= rs[i] && ch <= rs[i+1] {
+						return true
+					}
+				}
+				return false
+			}
+			bad := ""
+			n := 0
+			for _, x := range repls {
+				patE := x.Args[0]
+				if patE.Op != "call" || patE.Aux != "regexp.MustCompile" || len(patE.Args) < 1 {
+					continue
+				}
+				pat, ok := patE.Args[0].StrVal()
+				if !ok {
+					continue
+				}
+				re, err := syntax.Parse(pat, syntax.Perl)
+				if err != nil || re.Op != syntax.OpConcat || len(re.Sub) < 2 {
+					continue
+				}
+				lead := re.Sub[0]
+				for lead.Op == syntax.OpCapture {
+					lead = lead.Sub[0]
+				}
+				var leadOK func(ch rune) bool
+				switch lead.Op {
+				case syntax.OpCharClass:
+					rs := lead.Rune
+					leadOK = func(ch rune) bool { return inClass(rs, ch) }
+				case syntax.OpAnyChar, syntax.OpAnyCharNotNL:
+					leadOK = func(ch rune) bool { return true }
+				default:
+					continue // can match at the start of the text
+				}
+				n++
+				// innermost text of the replacement chain
+				text := x.Args[1]
+				for isRepl(text) {
+					text = text.Args[1]
+				}
+				head := ""
+				okHead := false
+				if text.Op == "bin" && text.Aux == "+" {
+					head, okHead = text.Args[0].StrVal()
+				}
+				switch {
+				case !okHead || head == "":
+					if bad == "" {
+						bad = fmt.Sprintf("the stripper %q needs a character in front of the bracket, but it is applied to %s, which can start with the bracket itself: a leading group or class is not stripped and its contents become the shortcut", pat, clip(u.Show(text), 80))
+					}
+				case !leadOK(rune(head[len(head)-1])):
+					if bad == "" {
+						bad = fmt.Sprintf("the placeholder %q prepended for the stripper %q ends in a character its leading class does not accept", head, pat)
+					}
+				default:
+					for _, ch := range head {
+						if splitRunes != nil && !inClass(splitRunes, ch) && bad == "" {
+							bad = fmt.Sprintf("the placeholder %q contains %q, which the splitter does not split at: it can become part of a shortcut", head, string(ch))
+						}
+					}
+				}
+			}
+			c.Check(bad == "", "C05.R7", shortFn(regexX)+": strippers that consume the character before the bracket are applied to placeholder+text", regexX.Pos(), fmt.Sprintf("%d stripper applications; innermost text = constant of splitter characters + expression", n), bad)
 		}
 		c.Extra["regex_constants_used"] = names
 		_ = nStrip
